@@ -166,7 +166,7 @@ fn slice_copy<H: Copy + PartialEq, T: Copy + PartialEq, const N: usize>(hv: H, v
         assert!(t.slice[i] == vals[i]);
     }
     // the iterator form must agree for the same shape (catches a wrong element base address)
-    let b = Arc::from_header_and_iter(hv, vals.iter().copied());
+    let b = Arc::from_header_and_iter(hv, (0..N).map(|i| vals[i]));
     assert!(b.header == hv && b.slice.len() == N);
     for i in 0..N {
         assert!(b.slice[i] == vals[i], "from_header_and_iter: element differs from the input (wrong offset or order)");
